@@ -242,6 +242,8 @@ namespace Pistache::Http::Mime
                     double val;
                     if (!match_double(&val, cursor))
                         raise("Invalid quality factor");
+                    if (!(val >= 0.0 && val <= 1.0))
+                        raise("Invalid quality factor, must be in the [0; 1] range");
                     q_ = Q::fromFloat(val);
                 }
                 else
